@@ -416,6 +416,19 @@ def main():
         scripts = [(mt[j:j + rng.randint(1, 3)], indent_chain(rng, which)) for j in range(0, len(mt), 3)]
         n += streams.s_treescript(ctx, [], stream=name, scripts=scripts + targeted_scripts(rng, which))
         print('%s done: %d statements, %.0fs' % (name, n, time.time() - t0), flush=True)
+    if want('filtersafe'):
+        rng = random.Random('vfs-%d' % a.seed)
+        tx = indent_texts(a.seed * 100 + 61, a.n)
+        inputs = [(t, indent_chain(rng, rng.choice(['reindent', 'aligned', 'both']))) for t in tx]
+        n = 0
+        for j in range(0, len(inputs), 4000):
+            n += streams.s_filtersafe(ctx, inputs[j:j + 4000])
+        mt = mutated_trees(a.seed * 100 + 62, max(500, a.n // 5))
+        scripts = [(mt[j:j + rng.randint(1, 2)], indent_chain(rng, rng.choice(['reindent', 'aligned', 'both'])))
+                   for j in range(0, len(mt), 2)]
+        scripts += targeted_scripts(rng, 'both', reps=15) + targeted_scripts(rng, 'reindent', reps=10) + targeted_scripts(rng, 'aligned', reps=10)
+        n += streams.s_filtersafe(ctx, [], scripts=scripts)
+        print('DOMAIN(filtersafe) done: %d statements, %.0fs' % (n, time.time() - t0), flush=True)
     if want('fmtfull'):
         rng = random.Random('vff-%d' % a.seed)
         tx = indent_texts(a.seed * 100 + 99, a.n) + texts(a.seed * 100 + 98, a.n // 2)
@@ -437,7 +450,7 @@ def main():
     for st, ms in seen.items():
         for m in ms:
             print('\nMISMATCH %s\n  input: %s\n  model: %s\n  impl:  %s' % (st, common.short(m['input'], 300), m['model'], m['impl']))
-    exc = {k: v for k, v in sorted(ctx.dist.items()) if ':err ' in k}
+    exc = {k: v for k, v in sorted(ctx.dist.items()) if ':err ' in k or ' pred=' in k}
     if exc:
         print('\nexceptions raised by the real code (and mirrored): %s' % json.dumps(exc, indent=0))
     print('\ntotal mismatches: %d   wall %.0fs' % (bad, time.time() - t0))
